@@ -23,6 +23,7 @@ fn run_prop(id: &str, tier: Tier) -> Option<Report> {
         "C06" => props::c06::run(tier),
         "C18" => props::c18::run(tier),
         "C19" => props::c19::run(tier),
+        "C17" => props::c17::run(tier),
         _ => return None,
     })
 }
@@ -39,6 +40,7 @@ fn replay_case(case: &Value) -> Option<(bool, String)> {
         "c06" => props::c06::replay(case),
         "c18" => props::c18::replay(case),
         "c19" => props::c19::replay(case),
+        "c17" | "c17hsl" => props::c17::replay(case),
         _ => return None,
     })
 }
